@@ -20,3 +20,5 @@ def run(col, configs, tier):
         from rules import sep
         guarded(col, sep.rule_components, facts)
         guarded(col, sep.rule_peek_dispatch, facts)
+        guarded(col, sep.rule_end_of_buffer_neutral, facts)
+        guarded(col, sep.rule_lookaround_kind, facts)
